@@ -1,6 +1,7 @@
 # -*- coding: utf-8 -*-
 
 import abc
+import calendar
 import datetime
 import enum
 import struct
@@ -842,7 +843,7 @@ class ComposerBinary(ComposerBase):
         if value is None:
             timestamp = 0xffffffffffffffff
         else:
-            timestamp = int(time.mktime(value.timetuple())) - time.timezone
+            timestamp = calendar.timegm(value.utctimetuple())
 
             if milliseconds:
                 timestamp *= 1000
